@@ -192,7 +192,7 @@ Definition check_scrolling_up_a (t : term) (force : bool) : Z :=
   else 0.
 Definition caret_up_a (t : term) (n : Z) : Z := check_scrolling_up_a (set_cy t (sat_sub (cy t) n)) false.
 Definition caret_down_a (t : term) (n : Z) : Z := check_scrolling_down_a (set_cy t (sat_add (cy t) n)) false.
-Definition rep_a (t : term) (c : cell) (n : Z) : Z := ticks_of (iter_cost_res n (fun x => print_char x c) (fun x => print_char_a x c) t).
+Definition rep_a (t : term) (c : cell) (n : Z) : Z := ticks_of (iter_cost_res (Z.min n (rep_limit t)) (fun x => print_char x c) (fun x => print_char_a x c) t).
 
 Definition ed_a (t : term) (ns : list Z) : Z :=
   match ns with
